@@ -2,7 +2,8 @@
    from the factors as mutated by the components before r, literal breakpt/endpt arithmetic, in-place `-1 *` of the
    chosen columns one after the other) EQUALS the one-shot model k_fixsigns_other_core (= k_flip with the modes
    fso_modes computed from the ORIGINAL normalised operands), as a ktensor (weights and every stored entry), for every
-   well-formed receiver, every reference with at most as many components, every commutative ring, every total comparison
+   well-formed receiver, every reference (fewer, as many or MORE components than the receiver: the loop runs over
+   range(min(RA, RB)) since /repo 8ac87f0), every commutative ring, every total comparison
    and every sign test that is downward closed w.r.t. it.  Hence invariance, parity and the sign-agreement normal form,
    proved for the model, hold for the loop.  Also: normalize() keeps well-formedness and rank, so the statement applies to
    the operands fixsigns(other) actually works on. *)
@@ -158,17 +159,19 @@ Proof.
 Qed.
 
 (* THE LOOP IS THE MODEL *)
-Theorem py_fixsigns_other_is_model A B : wf_k A -> krank B <= krank A -> pyloop A B = model A B.
+Theorem py_fixsigns_other_is_model A B : wf_k A -> pyloop A B = model A B.
 Proof.
-  intros Hwf Hle. unfold py_fixsigns_other_core, k_fixsigns_other_core, k_flip. f_equal.
-  assert (H : forall t, t <= krank B ->
+  intros Hwf. unfold py_fixsigns_other_core, k_fixsigns_other_core, k_flip. f_equal.
+  assert (H : forall t, t <= Nat.min (krank A) (krank B) ->
             fold_left (step B (kweights A)) (seq 0 t) (kfactors A) = flipf (fl_upto A B t) (krank A) 0 (kfactors A)).
   { induction t as [|t IH]; intros Ht.
     - cbn [seq fold_left]. symmetry. etransitivity; [|apply (flipf_id (krank A) (kfactors A) 0 Hwf)].
       apply flipf_ext. intros n r _ _. reflexivity.
     - rewrite seq_S, fold_left_app, IH by lia. cbn [fold_left Nat.add]. apply step_inv; auto; lia. }
-  rewrite (H (krank B)) by lia. apply flipf_ext. intros n r _ _. unfold fl_upto, fso_modes.
-  destruct (r <? krank B); reflexivity.
+  rewrite (H (Nat.min (krank A) (krank B))) by lia. apply flipf_ext. intros n r _ Hr. unfold fl_upto, fso_modes.
+  destruct (Nat.ltb_spec r (krank B)) as [HB|HB].
+  - replace (r <? Nat.min (krank A) (krank B)) with true by (symmetry; apply Nat.ltb_lt; lia). reflexivity.
+  - replace (r <? Nat.min (krank A) (krank B)) with false by (symmetry; apply Nat.ltb_ge; lia). reflexivity.
 Qed.
 End Order.
 
@@ -233,23 +236,22 @@ Notation pyloop := (py_fixsigns_other_core v0 v1 vadd vmul vopp neg leb).
 (* fixsigns(other), transliterated: self.normalize(); other.copy().normalize(); the column loop *)
 Definition py_fixsigns_other (A B : ktensor V) : ktensor V := pyloop (normalize0 A) (normalize0 B).
 
-Theorem py_fixsigns_other_full A B : wf_k A -> wf_k B -> krank B <= krank A ->
+Theorem py_fixsigns_other_full A B : wf_k A ->
   py_fixsigns_other A B = k_fixsigns_other V v0 v1 vadd vmul vopp vinv nrm pos neg root srt leb A B.
 Proof.
-  intros HA HB Hle. unfold py_fixsigns_other, k_fixsigns_other.
-  destruct (wf_normalize vinv nrm pos neg root srt A HA) as [H1 H2].
-  destruct (wf_normalize vinv nrm pos neg root srt B HB) as [_ H4].
-  apply py_fixsigns_other_is_model; auto. rewrite H2, H4. exact Hle.
+  intros HA. unfold py_fixsigns_other, k_fixsigns_other.
+  destruct (wf_normalize vinv nrm pos neg root srt A HA) as [H1 _].
+  apply py_fixsigns_other_is_model; auto.
 Qed.
 
 (* the loop preserves the denoted array (every norm oracle positive on non-zero columns) *)
 Theorem den_py_fixsigns_other :
   (forall x, x <> v0 -> x * vinv x = v1) -> (forall x, pos x = true -> x <> v0) ->
   (forall l, pos (nrm l) = false -> Forall (fun y => y = v0) l) -> (forall l, is_perm (srt l) (length l)) ->
-  forall A B, wf_k A -> wf_k B -> krank B <= krank A ->
+  forall A B, wf_k A ->
   forall i, den_k v0 v1 vadd vmul (py_fixsigns_other A B) i = den_k v0 v1 vadd vmul A i.
 Proof.
-  intros H1 H2 H3 H4 A B HA HB Hle i. rewrite py_fixsigns_other_full by assumption.
+  intros H1 H2 H3 H4 A B HA i. rewrite py_fixsigns_other_full by assumption.
   apply (den_fixsigns_other V v0 v1 vadd vmul vsub vopp vinv Vring nrm pos neg root srt leb H1 H2 H3 H4).
 Qed.
 End Full.
@@ -259,7 +261,7 @@ End Full.
 Theorem py_fixsigns_other_scores (neg : V -> bool) (leb : V -> V -> bool) :
   (forall a b, leb a b = false -> leb b a = true) -> (forall a b, leb a b = true -> neg b = true -> neg a = true) ->
   (forall x, neg x = true -> neg (vopp x) = false) ->
-  forall A B r, wf_k A -> krank B <= krank A -> r < krank B ->
+  forall A B r, wf_k A -> r < krank B -> r < krank A ->
   let s := scores A B r in let idx := argsort leb s in let ss := pick v0 idx s in
   let A' := py_fixsigns_other_core v0 v1 vadd vmul vopp neg leb A B in
   Sorted (fun a b => leb a b = true) ss /\
@@ -267,7 +269,7 @@ Theorem py_fixsigns_other_scores (neg : V -> bool) (leb : V -> V -> bool) :
   let cnt := length (filter (fun q => neg (nth (nth q idx 0) (scores A' B r) v0)) (seq 0 (length (kfactors A)))) in
   cnt <= 1 /\ (Nat.even (length (filter neg ss)) = true -> cnt = 0).
 Proof.
-  intros H1 H2 H3 A B r Hwf Hle Hr. rewrite (py_fixsigns_other_is_model neg leb H1 H2 A B Hwf Hle).
+  intros H1 H2 H3 A B r Hwf HrB HrA. rewrite (py_fixsigns_other_is_model neg leb H1 H2 A B Hwf).
   apply (fixsigns_other_scores V v0 v1 vadd vmul vsub vopp Vring neg leb H1 H2 H3 A B r); lia.
 Qed.
 End PL8.
